@@ -591,6 +591,11 @@ Proof.
       apply existsb_exists in E. destruct E as (y & Hy & Ey). apply N.eqb_eq in Ey. subst y. contradiction.
 Qed.
 
+Lemma existsb_map_ext {A} (f : A -> A) (g : A -> bool) l : (forall x, g (f x) = g x) -> existsb g (map f l) = existsb g l.
+Proof. intros H. induction l as [|x l IH]; cbn [map existsb]; [reflexivity|]. rewrite H, IH. reflexivity. Qed.
+Lemma forallb_map_ext {A} (f : A -> A) (g : A -> bool) l : (forall x, g (f x) = g x) -> forallb g (map f l) = forallb g l.
+Proof. intros H. induction l as [|x l IH]; cbn [map forallb]; [reflexivity|]. rewrite H, IH. reflexivity. Qed.
+
 Section KeysetProofs.
   Variable K : Type.
   Variable ser_k : K -> option kser.
@@ -809,10 +814,10 @@ Section KeysetProofs.
     rewrite (all_some_map _ f).
     - unfold new_from_entries in *.
       assert (E1 : existsb e_primary (map f es) = existsb e_primary es).
-      { rewrite existsb_map. apply existsb_ext. intros e. unfold f. destruct (pub_k (e_key e)); reflexivity. }
+      { apply existsb_map_ext. intros e. unfold f. destruct (pub_k (e_key e)); reflexivity. }
       assert (E2 : forallb (fun e : entry K => match e_status e with Unknown => false | _ => true end) (map f es)
                    = forallb (fun e : entry K => match e_status e with Unknown => false | _ => true end) es).
-      { rewrite forallb_map. apply forallb_ext. intros e. unfold f. destruct (pub_k (e_key e)); reflexivity. }
+      { apply forallb_map_ext. intros e. unfold f. destruct (pub_k (e_key e)); reflexivity. }
       change (existsb (e_primary (K:=K)) (map f es)) with (existsb e_primary (map f es)).
       rewrite E1, E2. destruct (existsb e_primary es && _); [reflexivity | discriminate].
     - intros e He. unfold f. specialize (Hp e He). destruct (pub_k (e_key e)); [reflexivity | contradiction].
